@@ -242,7 +242,28 @@ func showE2EEvent(e sse.Event) string {
 	return fmt.Sprintf("(%s|%s|%s)", hxs(e.LastEventID), hxs(e.Type), hxs(e.Data))
 }
 
+// runE2E appends, to the verdict of the Go-side oracle, the observation the Lean specification judges:
+// the IDs of the published events (in the order Joe stored them) and of the events the client dispatched.
 func runE2E(args []string) string {
+	e2eObs = ""
+	v := runE2Einner(args)
+	return v + e2eObs
+}
+
+var e2eObs string
+
+func idsOf(evs []sse.Event) string {
+	if len(evs) == 0 {
+		return "-"
+	}
+	parts := make([]string, len(evs))
+	for i, e := range evs {
+		parts[i] = hxs(e.LastEventID)
+	}
+	return strings.Join(parts, ",")
+}
+
+func runE2Einner(args []string) string {
 	if len(args) != 5 {
 		return "bad-args"
 	}
@@ -427,6 +448,7 @@ wait:
 	for _, m := range stored {
 		want = append(want, expectedEvents(m)...)
 	}
+	e2eObs = " ## pub=" + idsOf(want) + " ## got=" + idsOf(got)
 	stats := fmt.Sprintf("msgs=%d received=%d sessions=%d cuts=%d ends=%d resumed=%d", len(stored), len(got), prov.sessions.Load(), cuts.Load(), prov.ends.Load(), prov.resumed.Load())
 	if verdict != "" {
 		return verdict + " " + stats
